@@ -62,8 +62,8 @@ LyBagBetween(F, I, G, J, Must) ==
 (* --- the clauses on drawn areas (no announced range needed) ------------------------------------------- *)
 LyPieceFailed(reg, ps) ==
     (IF \E i \in DOMAIN ps : ps[i].kind \notin LyKinds THEN {"known_kind_of_area"} ELSE {})
-    \cup (IF \E i \in DOMAIN ps : ~(ps[i].ns <= ps[i].start /\ ps[i].start <= ps[i].end /\ ps[i].end <= ps[i].ne)
-          THEN {"core_inside_own_extent"} ELSE {})
+    \cup {"core_inside_own_extent:" \o ps[i].kind :
+             i \in {i \in DOMAIN ps : ~(ps[i].ns <= ps[i].start /\ ps[i].start <= ps[i].end /\ ps[i].end <= ps[i].ne)}}
     \cup (IF \E i \in DOMAIN ps : ps[i].ns >= ps[i].ne THEN {"extent_not_empty"} ELSE {})
     \cup (IF \E i, j \in DOMAIN ps : i < j /\ ps[i].row = ps[j].row /\ LyBases(ps[i]) \cap LyBases(ps[j]) # {}
           THEN {"same_row_areas_do_not_overlap"} ELSE {})
